@@ -285,6 +285,22 @@ pub fn one_program<F>(
                     wvals.iter().map(|x| x.as_canonical_u64().to_string()).collect::<Vec<_>>().join(" ")
                 )
                 .unwrap();
+                // (a circuit without ALU ops gets one dummy `0 + 0 = 0` row from the runner: not an op's record)
+                let n_alu = circuit.ops.iter().filter(|o| matches!(o, Op::Alu { .. })).count();
+                writeln!(
+                    implo,
+                    "recs {}",
+                    traces
+                        .alu_trace
+                        .op_kind
+                        .iter()
+                        .zip(&traces.alu_trace.values)
+                        .take(n_alu)
+                        .map(|(k, v)| format!("{}:{},{},{},{}", kind_str(*k), v[0].as_canonical_u64(), v[1].as_canonical_u64(), v[2].as_canonical_u64(), v[3].as_canonical_u64()))
+                        .collect::<Vec<_>>()
+                        .join(" ")
+                )
+                .unwrap();
                 bump(&mut rep.hist, "run.ok", 1);
                 if sem.zero_div {
                     // a divisor is zero: the property promises nothing for this input
